@@ -199,6 +199,59 @@ def check(run):
             mism.append({"case": ["go type name", TYPES[j]], "impl": names_seen.get(TYPES[j])})
     except Broken as b:
         broken.append(b)
+    # ---- floats: operand types and operators are kept, a literal denotes the nearest value of its type ---------------
+    import struct as _struct
+
+    FT = {"float32": "f32", "float64": "f64"}
+    fprogs, fmeta = [], []
+    for t in FT:
+        for sym, _ in OPS:
+            fprogs.append("fn f(a: %s, b: %s) -> %s {\n    a %s b\n}\nfn main() {\n    let _ = f(3.5%s, 2.25%s);\n    ()\n}\n" % (t, t, t, sym, FT[t], FT[t]))
+            fmeta.append((t, sym, "arith"))
+        for sym in CMPS:
+            fprogs.append("fn f(a: %s, b: %s) -> bool {\n    a %s b\n}\nfn main() {\n    let _ = f(3.5%s, 2.25%s);\n    ()\n}\n" % (t, t, sym, FT[t], FT[t]))
+            fmeta.append((t, sym, "cmp"))
+        fprogs.append("fn f(a: %s) -> %s {\n    -a\n}\nfn main() {\n    let _ = f(3.5%s);\n    ()\n}\n" % (t, t, FT[t]))
+        fmeta.append((t, "-", "neg"))
+    frng = run.sub_rng("c10-float")
+    flits = ["0.0", "1.0", "3.0", "1.5", "0.1", "0.2", "0.30000000000000004", "2.718281828459045", "16777217.0", "16777216.0", "0.000001", "123456789.125", "100000000000000000000.0", "340282346638528859811704183484516925440.0", "0.5", "255.75"]
+    flits += ["%d.%s" % (frng.randint(0, 10 ** frng.randint(1, 9)), str(frng.randint(0, 10 ** frng.randint(1, 12))).rjust(frng.randint(1, 4), "0")) for _ in range(30 if run.tier == "quick" else 400)]
+    for t in FT:
+        for lit in flits:
+            for form in (("suffixed", "annotated") if t == "float64" else ("suffixed",)):  # an unsuffixed float literal is a float64
+                decl = "let a = %s%s;" % (lit, FT[t]) if form == "suffixed" else "let a: %s = %s;" % (t, lit)
+                fprogs.append("fn main() {\n    %s\n    string_println(%s_to_string(a))\n}\n" % (decl, t))
+                fmeta.append((t, lit, "lit-" + form))
+    fres = compile_many(run, fprogs, "c10float")
+    fstats = {"float_programs": len(fprogs), "float_ok": 0}
+    for (t, what, kind), r, src_ in zip(fmeta, fres, fprogs):
+        if not r.get("ok"):
+            wits.append({"kind": "well-typed float program rejected or crashed", "type": t, "what": what, "program": src_, "impl": {k_: v for k_, v in r.items() if k_ != "go"}})
+            continue
+        go = r["go"]
+        if kind == "neg":
+            m = re.search(r"func f\(a__\d+ (\w+)\) (\w+) \{\n\s+var ret\d+ \w+\n\s+ret\d+ = -a__\d+\n", go)
+            ok = bool(m) and m.group(1) == t and m.group(2) == t
+        elif kind in ("arith", "cmp"):
+            m = re.search(r"func f\(a__\d+ (\w+), b__\d+ (\w+)\) (\w+) \{\n\s+var ret\d+ \w+\n\s+ret\d+ = a__\d+ (\S+) b__\d+\n", go)
+            ok = bool(m) and m.group(1) == t and m.group(2) == t and m.group(4) == what and m.group(3) == (t if kind == "arith" else "bool")
+        else:
+            m = re.search(r"var a__\d+ (\w+) = (\S+)\n", go)
+            ok = False
+            if m and m.group(1) == t:
+                try:
+                    got, want = float(m.group(2)), float(what)
+                    if t == "float32":
+                        f32 = lambda x: _struct.unpack("f", _struct.pack("f", x))[0]
+                        ok = f32(got) == f32(want)
+                    else:
+                        ok = got == want
+                except (ValueError, OverflowError):
+                    ok = False
+        if ok:
+            fstats["float_ok"] += 1
+        else:
+            wits.append({"kind": "float %s: the emitted Go does not keep the operand type/operator or the value of the literal" % kind, "type": t, "what": what, "program": src_, "go_excerpt": go[go.find("func f(") if "func f(" in go else go.find("func main0") :][:300]})
     # ---- *_to_string verbs -------------------------------------------
     src = "fn main() {\n" + "".join("    let _ = string_println(%s_to_string(1%s));\n" % (t, SUFFIX[t]) for t in TYPES) + "    let _ = string_println(float32_to_string(1.5f32));\n    string_println(float64_to_string(2.5f64))\n}\n"
     (vr,) = compile_many(run, [src], "c10verb")
@@ -259,7 +312,7 @@ def check(run):
         "divisions whose quotient is never read, six comparisons and negation; the typed source tree (Sem/Src.v) and the emitted Go AST (Sem/GoSem.v, which treats an operation on two literals as Go does: exact, invalid on overflow or a zero constant divisor) "
         "must agree with each other and with a Python oracle (wrap modulo 2^N, truncation toward zero, failure at the first division by zero)"
     )
-    run.cov["correspondence"] = {"arithmetic": astats, "literal_cases": n_lit, "operator_programs": len(oprogs), "model_mismatches": len(mism), "accepted": sum(1 for c, r in zip(cases, res) if r.get("ok")), "rejected": sum(1 for c, r in zip(cases, res) if not r.get("ok"))}
+    run.cov["correspondence"] = {"floats": fstats, "arithmetic": astats, "literal_cases": n_lit, "operator_programs": len(oprogs), "model_mismatches": len(mism), "accepted": sum(1 for c, r in zip(cases, res) if r.get("ok")), "rejected": sum(1 for c, r in zip(cases, res) if not r.get("ok"))}
     run.cov["open_obligations"] = [
         "float literals and float32 rounding: only the type mapping float32->Go float32 is checked; decimal->binary conversion and Go's float formatting are not modelled",
         "Go's semantics of sized integer arithmetic (wrap) is a model of the Go specification, validated only against the recorded corpus outputs",
